@@ -271,6 +271,7 @@ func runC02(seed uint64, n int, tier string, outDir string) []*Stats {
 	// ---- linker correspondence ----
 	var cases []string
 	var emitCases []string
+	var toesmCases []string
 	nCorr := n
 	formats := []config.Format{config.FormatESModule, config.FormatCommonJS, config.FormatIIFE}
 	platforms := []config.Platform{config.PlatformNode, config.PlatformNeutral, config.PlatformBrowser}
@@ -286,6 +287,7 @@ func runC02(seed uint64, n int, tier string, outDir string) []*Stats {
 			st.Note("corr:scan-error", fmt.Sprint(len(scanMsgs)), false)
 			return
 		}
+		toesmCases = append(toesmCases, toESMCases(g, lastOutput)...)
 		if ec, ok := emitCase(d, cfg, lastOutput); ok {
 			emitCases = append(emitCases, ec)
 			st.Note("emit:"+[]string{"", "iife", "cjs", "esm"}[int(cfg.format)%4], ec, true)
@@ -332,6 +334,8 @@ func runC02(seed uint64, n int, tier string, outDir string) []*Stats {
 		addCase(g, kind)
 	}
 	cf.AddCases("emit_cases", "emit_case", "check_emit", emitCases)
+	cf.AddCases("toesm_cases", "bool * bool * bool", "check_toesm", toesmCases)
+	st.Note("toesm-calls", fmt.Sprint(len(toesmCases)), len(toesmCases) > 0)
 	cf.AddCases("reach_cases", "case", "check_reach", cases)
 	extra := ""
 	for _, chk := range []string{"classify", "resolved", "match", "order", "spec_order", "spec_resolve"} {
@@ -566,4 +570,38 @@ func emitCase(d *linker.VerifC02Dump, cfg linkCfg, text string) (string, bool) {
 		}
 	}
 	return fmt.Sprintf("(%d, %s, [%s], %d, [%s])", fz, CBool(entry.ExportKw), strings.Join(aliases, ";"), ndyn, strings.Join(obs, "; ")), true
+}
+
+var reSection = regexp.MustCompile(`^\s*// (\S+)$`)
+var reToESMCall = regexp.MustCompile(`__toESM\(require_\w+\(\)(, 1)?\)`)
+
+// toESMCases: every "__toESM(require_x()[, 1])" of the real (unminified) bundle with the importing
+// file's typing (all ES-module files of the generated trees are ESM-typed: .mjs or .js under
+// "type": "module"; CommonJS files are not) and whether it is the body of an import()
+func toESMCases(g *ggraph, text string) []string {
+	if text == "" {
+		return nil
+	}
+	typed := map[string]bool{}
+	known := map[string]bool{}
+	for _, m := range g.mods {
+		known[m.path] = true
+		typed[m.path] = m.kind == modESM
+	}
+	var out []string
+	cur := ""
+	for _, ln := range strings.Split(text, "\n") {
+		if m := reSection.FindStringSubmatch(ln); m != nil && known[m[1]] {
+			cur = m[1]
+			continue
+		}
+		if cur == "" {
+			continue
+		}
+		for _, m := range reToESMCall.FindAllStringSubmatch(ln, -1) {
+			dyn := strings.Contains(ln, "Promise.resolve().then(")
+			out = append(out, fmt.Sprintf("(%s, %s, %s)", CBool(typed[cur]), CBool(dyn), CBool(m[1] != "")))
+		}
+	}
+	return out
 }
